@@ -1,7 +1,8 @@
-import QbVerif.Lemmas.IpcsLifeInvTop6
+import QbVerif.Lemmas.IpcsLifeInvBatch
+import QbVerif.Lemmas.IpcsLifeInvWalk
 
-/-! C04 — histories of the external operations proved so far (everything except destroy, half,
-    halfgone, finish) preserve the history invariant, from the initial state. -/
+/-! C04 — EVERY external operation (incl. qb_ipcs_destroy, pending handshakes, the harness's finish, request
+    bursts, rate-limit changes, poll-handler faults) preserves the history invariant, from the initial state. -/
 namespace QbVerif.IpcsLife
 
 /-- operations covered: script, connect, send, gone, application API calls, job, run -/
@@ -33,7 +34,83 @@ theorem gone_ok {s : St} (h : TopInv s) (hh : s.halt = false) (K : Nat) (s' : St
       exact ⟨this.1, this.2⟩
     · exact h0
 
-theorem step_live_ok (s : St) (op : Op) (h : TopInv s) (hl : LiveOp op) : TopInv (step s op) := by
+theorem foldl_top {α : Type} (f : St → α → St) (hf : ∀ s a, TopInv s → TopInv (f s a)) :
+    ∀ (l : List α) (s : St), TopInv s → TopInv (l.foldl f s)
+  | [], _, h => h
+  | a :: r, s, h => foldl_top f hf r (f s a) (hf s a h)
+
+theorem dropAppRefs_ok : ∀ (n : Nat) (s : St) (c : Nat), TopInv s → TopInv (dropAppRefs n s c)
+  | 0, _, _, h => h
+  | n+1, s, c, h => by
+    unfold dropAppRefs
+    split
+    · exact h
+    · next hx =>
+      split
+      · exact dropAppRefs_ok n _ c (h.exec (by simpa using hx) (.app 0 (.u c)) trivial)
+      · exact h
+
+theorem halfGone_ok {s : St} (h : TopInv s) (P : Nat) : TopInv (halfGone s P) :=
+  have hs := halfGone_same s P
+  h.same hs.1 hs.2.1 hs.2.2
+
+theorem finBtail_ok (w : St) (i : Nat) (hw : TopInv w) :
+    TopInv (if w.halt then w else if w.halfs.contains i then halfGone w i else w) := by
+  split
+  · exact hw
+  · split
+    · exact halfGone_ok hw i
+    · exact hw
+
+theorem finCtail_ok (w : St) (hw : TopInv w) : TopInv (if w.halt then w else w.emit (.res "finished")) := by
+  split
+  · exact hw
+  · exact hw.same (same_emit _ _) rfl (fun hy => hy)
+
+def finA (s : St) : St := (List.range s.nconn).foldl (fun s i => dropAppRefs 64 s (i + 1)) s
+def finB (s : St) : St := (List.range 16).foldl (fun s i =>
+    if s.halt then s else
+    let s := match gone s i with | some s' => s' | none => s
+    if s.halt then s else
+    if s.halfs.contains i then halfGone s i else s) s
+def finC (s : St) : St :=
+  if s.halt then s else
+  let s := if s.svcGone then s else destroy s
+  let s := runJobs 1000 s
+  if s.halt then s else s.emit (.res "finished")
+
+theorem finish_eq (s : St) : finish s = finC (finB (finA s)) := rfl
+
+/-- the harness's `finish`: drop every application reference, every client and raw peer goes away,
+    qb_ipcs_destroy, run the retry jobs -/
+theorem finish_ok {s : St} (h : TopInv s) : TopInv (finish s) := by
+  rw [finish_eq]
+  have hA : TopInv (finA s) := foldl_top _ (fun s i h => dropAppRefs_ok 64 s (i + 1) h) _ s h
+  have hB : TopInv (finB (finA s)) := by
+    refine foldl_top _ (fun s i h => ?_) _ _ hA
+    split
+    · exact h
+    · next hx =>
+      have hh : s.halt = false := by simpa using hx
+      have hg : TopInv (match gone s i with | some s' => s' | none => s) := by
+        split
+        · next s' hs => exact gone_ok h hh i s' hs
+        · exact h
+      exact finBtail_ok _ i hg
+  generalize finB (finA s) = w at hB
+  unfold finC
+  split
+  · exact hB
+  · next hx =>
+    have hh : w.halt = false := by simpa using hx
+    have hD : TopInv (if w.svcGone then w else destroy w) := by
+      split
+      · exact hB
+      · exact destroy_ok hB hh
+    exact finCtail_ok _ (runJobs_ok 1000 _ hD)
+
+/-- EVERY operation preserves the history invariant -/
+theorem step_ok (s : St) (op : Op) (h : TopInv s) : TopInv (step s op) := by
   unfold step
   split
   · exact h
@@ -69,18 +146,55 @@ theorem step_live_ok (s : St) (op : Op) (h : TopInv s) (hl : LiveOp op) : TopInv
       · exact h.same (same_emit s _) rfl (fun hx => hx)
       · next s' hr => exact (runJob_ok h hh' s' hr).ok
     | run => exact (runJobs_ok 1000 s h).ok
-    | destroy => exact absurd hl (by simp [LiveOp])
-    | half P => exact absurd hl (by simp [LiveOp])
-    | halfgone P => exact absurd hl (by simp [LiveOp])
-    | finish => exact absurd hl (by simp [LiveOp])
+    | destroy =>
+      simp only []
+      split
+      · exact h.same (same_emit s _) rfl (fun hx => hx)
+      · exact (destroy_ok h hh').ok
+    | half P =>
+      simp only []
+      have h1 := same_pollAdd s
+      split
+      · exact h.same (same_emit s _) rfl (fun hx => hx)
+      · split
+        · have h2 := same_authRefused s.pollAdd.2
+          exact h.same (h1.1.trans h2.1) (h2.2.1.trans h1.2.1) (fun hx => by rw [← h1.2.2]; exact h2.2.2 hx)
+        · apply TopInv.ok
+          exact h.same (h1.1.trans ⟨rfl, rfl, rfl, rfl, rfl, rfl⟩) h1.2.1 (fun hx => by rw [← h1.2.2]; exact hx)
+    | halfgone P =>
+      simp only []
+      split
+      · exact (halfGone_ok h P).ok
+      · exact h.same (same_emit s _) rfl (fun hx => hx)
+    | finish => exact finish_ok h
+    | sendn K n =>
+      simp only []
+      split
+      · exact h.same (same_emit s _) rfl (fun hx => hx)
+      · next c _ => exact (sendLoop_ok n h c n).ok
+    | rate r =>
+      simp only []
+      split
+      · exact h.same (same_emit s _) rfl (fun hx => hx)
+      · exact (rateLimit_ok h r).ok
+    | fault kind n =>
+      apply TopInv.ok
+      split
+      · exact h.same ⟨rfl, rfl, rfl, rfl, rfl, rfl⟩ rfl (fun hx => hx)
+      · exact h
 
-theorem run_live_ok (ops : List Op) : ∀ (s : St), TopInv s → (∀ op, op ∈ ops → LiveOp op) → TopInv (run s ops) := by
+/-- EVERY history preserves the history invariant -/
+theorem run_ok (ops : List Op) : ∀ (s : St), TopInv s → TopInv (run s ops) := by
   induction ops with
-  | nil => intro s h _; exact h
+  | nil => intro s h; exact h
   | cons o r ih =>
-    intro s h hl
+    intro s h
     simp only [run, List.foldl_cons]
-    exact ih (step s o) (step_live_ok s o h (hl o (by simp))) (fun op hop => hl op (by simp [hop]))
+    exact ih (step s o) (step_ok s o h)
+
+theorem step_live_ok (s : St) (op : Op) (h : TopInv s) (_hl : LiveOp op) : TopInv (step s op) := step_ok s op h
+theorem run_live_ok (ops : List Op) (s : St) (h : TopInv s) (_hl : ∀ op, op ∈ ops → LiveOp op) :
+    TopInv (run s ops) := run_ok ops s h
 
 theorem initFixed_top : TopInv initFixed := by
   have hi : Inv initFixed :=
